@@ -16,6 +16,7 @@ namespace vsched
 struct Step {
   int tid;
   int nops;
+  bool hold = false;  // after its quota the thread stays blocked until the script names it again or ends
 };
 inline std::vector<Step> script;
 inline std::atomic<int> pos{0};
@@ -33,6 +34,8 @@ Start(std::vector<Step> s)
 }
 inline void Register(int tid) { my_tid = tid; }
 inline bool Finished() { return pos.load(std::memory_order_relaxed) >= static_cast<int>(script.size()); }
+inline void Finish() { pos.store(static_cast<int>(script.size()), std::memory_order_relaxed); }
+inline int Pos() { return pos.load(std::memory_order_relaxed); }
 // let the script advance past the current entry (used when a thread has no more operations to perform)
 inline void
 SkipMyTurns()
@@ -73,8 +76,18 @@ verif_sched_point(const void *addr, const char *op, int before)
     if (p >= static_cast<int>(script.size()) || script[p].tid != my_tid) return;
     int l = left.load(std::memory_order_relaxed) - 1;
     if (l <= 0) {
+      const bool hold = script[p].hold;
       if (p + 1 < static_cast<int>(script.size())) left.store(script[p + 1].nops, std::memory_order_relaxed);
       pos.store(p + 1, std::memory_order_relaxed);
+      if (hold) {
+        auto t0 = std::chrono::steady_clock::now();
+        while (true) {
+          int q = pos.load(std::memory_order_relaxed);
+          if (q >= static_cast<int>(script.size()) || script[q].tid == my_tid) break;
+          std::this_thread::yield();
+          if (std::chrono::steady_clock::now() - t0 > std::chrono::seconds(20)) break;
+        }
+      }
     } else {
       left.store(l, std::memory_order_relaxed);
     }
